@@ -189,6 +189,17 @@ ATOMS = (["\r", "\n", "\r\n", "\n\r", "\x85", " ", " ", "\x0b", "\x0c", "\t"
 
 
 def gen_text(rng, closing):
+    if rng.random() < 0.08:
+        # a long multi-line message (report, traceback): many separate runs of line breaks, payload after each;
+        # any per-call budget of substitutions (8, 16, 32, 64 ...) is exceeded
+        runs = rng.choice([9, 10, 12, 17, 20, 33, 40, 65, 70, 130])
+        brk = rng.choice(["\n", "\r", "\r\n", None])
+        parts = []
+        for i in range(runs):
+            parts.append(rng.choice(["step", "G1 X9", "M3 S1000", "a", "é", closing or "x"]) + str(i))
+            parts.append(brk or rng.choice(["\r", "\n", "\r\n", "\n\n", " \n "]))
+        parts.append(rng.choice(["G1 X9", "M3 S1000", "end"]))
+        return "".join(parts)
     n = rng.choice([0, 1, 1, 2, 2, 3, 4, 6, 10])
     parts = []
     for _ in range(n):
